@@ -174,6 +174,7 @@ type VC struct {
 	initVals map[*ssa.Global]string
 	initDone map[*ssa.Package]bool
 	inInit int
+	initRegions int
 	bitsMemo map[string]string
 	final []finalRoot
 	decls []string // self-contained declarations, emitted before every context line
@@ -644,9 +645,9 @@ func (vc *VC) assumeWF(pc string, term string, t types.Type, st *State, depth in
 	case *types.Basic:
 		if u.Kind() == types.String {
 			if vc.mode == Math {
-				vc.assume(pc, fmt.Sprintf("(<= 0 (str.len %s))", term))
+				vc.assume(pc, fmt.Sprintf("(<= 0 (gostr.len %s))", term))
 			} else {
-				vc.assume(pc, fmt.Sprintf("(bvult (str.len %s) #x0000800000000000)", term))
+				vc.assume(pc, fmt.Sprintf("(bvult (gostr.len %s) #x0000800000000000)", term))
 			}
 		} else if bits, signed, ok := intInfo(u); ok && vc.mode == Math {
 			lo, hi := intRange(bits, signed)
